@@ -86,6 +86,29 @@ void h_ICC(void) { ClipperBase* s; Active* e; IsContributingClosed(s, e); VF_CAN
 void h_ICO(void) { ClipperBase* s; Active* e; IsContributingOpen(s, e); VF_CANARY(); }
 void h_WU(void) { ClipperBase* s; Active *a, *b; winding_update(s, a, b); VF_CANARY(); }
 
+/* C13 symmetries of the contribution test (product harnesses over the real function): (a) reversing every path negates every winding number: EvenOdd and NonZero answers are unchanged, Positive and Negative exchange; (b) exchanging the roles of subject and clip leaves Intersection, Union and Xor unchanged */
+int nondet_int(void); unsigned nondet_uint(void); bool nondet_bool(void);
+void h_ICC_sym(void)
+{
+  ClipperBase s1, s2; Active e1, e2; LocalMinima l1, l2;
+  ClipType ct = (ClipType)(1 + nondet_uint() % 4); FillRule fr = (FillRule)(nondet_uint() % 4); PathType pt = nondet_bool() ? PathType_Subject : PathType_Clip;
+  __CPROVER_assume(ct >= ClipType_Intersection && ct <= ClipType_Xor && fr >= FillRule_EvenOdd && fr <= FillRule_Negative);
+  int w = nondet_int(), w2 = nondet_int(); __CPROVER_assume(w != 0 && W_OK(w) && W_OK(w2));
+  if (fr == FillRule_EvenOdd) __CPROVER_assume((w == 1 || w == -1) && (w2 == 0 || w2 == 1));
+  s1.cliptype_ = ct; s1.fillrule_ = fr; e1.local_min = &l1; l1.polytype = pt; e1.wind_cnt = w; e1.wind_cnt2 = w2;
+  bool base = IsContributingClosed(&s1, &e1);
+  bool reversed = nondet_bool();
+  if (reversed) {   /* (a) all paths reversed */
+    s2.cliptype_ = ct; s2.fillrule_ = fr == FillRule_Positive ? FillRule_Negative : fr == FillRule_Negative ? FillRule_Positive : fr;
+    e2.local_min = &l2; l2.polytype = pt; e2.wind_cnt = -w; e2.wind_cnt2 = fr == FillRule_EvenOdd ? w2 : -w2;
+    __CPROVER_assert(IsContributingClosed(&s2, &e2) == base, "reversing all paths: same answer under EvenOdd / NonZero, Positive and Negative exchanged");
+  } else if (ct != ClipType_Difference) {   /* (b) subject and clip exchanged */
+    s2.cliptype_ = ct; s2.fillrule_ = fr; e2.local_min = &l2; l2.polytype = pt == PathType_Subject ? PathType_Clip : PathType_Subject; e2.wind_cnt = w; e2.wind_cnt2 = w2;
+    __CPROVER_assert(IsContributingClosed(&s2, &e2) == base, "exchanging subject and clip does not change Intersection, Union, Xor");
+  }
+  VF_CANARY();
+}
+//@run name=IsContributingClosed.symmetries entry=h_ICC_sym flags=SAFETY timeout=120 props=C13,C01
 //@run name=GetPolyType entry=h_GetPolyType enforce=GetPolyType__p flags=SAFETY timeout=60
 //@run name=IsContributingClosed entry=h_ICC enforce=IsContributingClosed flags=SAFETY timeout=120
 //@run name=IsContributingClosed.z entry=h_ICC enforce=IsContributingClosed flags=SAFETY defs=USINGZ timeout=120 props=C01,C15
